@@ -314,6 +314,11 @@ func mkPkgs(tier string) []Pkg {
 		emit("special_conversion_"+cs.id, []string{cs.fn}, names)
 	}
 	head = ""
+	// a type parameter (or a local variable, a parameter, a field) spelled like a package-level function that uses the declaration
+	emit("special_typeparam_named_as_func", []string{"func Bq[Aq any](x Aq) Aq {\n\treturn x\n}", "func Aq() uint64 {\n\treturn Bq[uint64](1)\n}"}, []string{"Bq", "Aq"})
+	emit("special_param_named_as_func", []string{"func Bp(Ap uint64) uint64 {\n\treturn Ap + 1\n}", "func Ap() uint64 {\n\treturn Bp(1)\n}"}, []string{"Bp", "Ap"})
+	emit("special_local_named_as_func", []string{"func Bl() uint64 {\n\tAl := uint64(2)\n\treturn Al + 1\n}", "func Al() uint64 {\n\treturn Bl()\n}"}, []string{"Bl", "Al"})
+	emit("special_field_named_as_func", []string{"type Bf struct {\n\tAf uint64\n}", "func Af() uint64 {\n\tb := Bf{Af: 1}\n\treturn b.Af\n}"}, []string{"Bf", "Af"})
 	if tier == "thorough" {
 		// chains A -> B -> C
 		for _, t1 := range tmpls {
